@@ -95,9 +95,10 @@ def Alloc.ordered (a : Alloc) (ls : Labels) (occupy : Bool) : List Nat :=
   let items := a.indexed.filterMap (fun (i, c) =>
     let (m, cnt) := matchCIDR c.reqs ls
     if m && (!occupy || !c.term) then some (c.item i cnt) else none)
+  -- the catch-all entries go through a priority queue of their own (match count 0)
   let dflt := a.indexed.filterMap (fun (i, c) =>
-    if c.key == defaultKey && (!occupy || !c.term) then some i else none)
-  (pqSort items).map (·.idx) ++ dflt
+    if c.key == defaultKey && (!occupy || !c.term) then some (c.item i 0) else none)
+  (pqSort items).map (·.idx) ++ (pqSort dflt).map (·.idx)
 
 /-! ### pools reached through the map -/
 
